@@ -84,7 +84,7 @@ Proof.
     + injection H as <- _ _. discriminate.
   - (* if *)
     apply andb_true_iff in R. destruct R as [R1 R2].
-    split_nbind H E0. destruct a as [zz|bb| |ss]; try discriminate H.
+    split_nbind H E0. destruct a as [zz|bb| |ss|ll]; try discriminate H.
     split_nbind H E1. destruct a as [c1 e1]. simpl in H.
     injection H as <- _ _. destruct bb; [eapply IHs1|eapply IHs2]; eauto.
   - (* return *)
@@ -175,6 +175,42 @@ Proof.
   eapply ngood_bind; [apply (IHe _ _ _ _ o1 He Hap)|]. intros v o2 _ Hv. constructor; assumption.
 Qed.
 
+(* elements of an array literal, in either order: every value is an int *)
+Lemma nelems_sound_lr fuel L (en : nenv) : nexpr_sound fuel -> env_ok en L -> forall es,
+  Forall (fun a => ty_expr F G L a = Some TInt) es -> forall out,
+  ngood (fun vs => Forall (fun v => has_ty v TInt) vs)
+    ((fix eval_args (l : list expr) (out0 : list N) : nres (list value) :=
+        match l with
+        | [] => NOk [] out0
+        | a :: r => nbind (nat_expr ord fns fuel genv en a out0) (fun v out1 =>
+                    nbind (eval_args r out1) (fun vs out2 => NOk (v :: vs) out2))
+        end) es out).
+Proof.
+  intros IHe He es Ea. induction Ea as [|a l Ha Hrest IH]; intros out0; [constructor|].
+  eapply ngood_bind; [apply (IHe _ _ _ _ out0 He Ha)|]. intros v o1 _ Hv.
+  eapply ngood_bind; [apply IH|]. intros vs o2 _ Hvs. constructor; assumption.
+Qed.
+Lemma nelems_sound_rl fuel L (en : nenv) : nexpr_sound fuel -> env_ok en L -> forall es,
+  Forall (fun a => ty_expr F G L a = Some TInt) es -> forall out,
+  ngood (fun vs => Forall (fun v => has_ty v TInt) vs)
+    ((fix eval_args_rl (l : list expr) (out0 : list N) : nres (list value) :=
+        match l with
+        | [] => NOk [] out0
+        | a :: r => nbind (eval_args_rl r out0) (fun vs out1 =>
+                    nbind (nat_expr ord fns fuel genv en a out1) (fun v out2 => NOk (v :: vs) out2))
+        end) es out).
+Proof.
+  intros IHe He es Ea. induction Ea as [|a l Ha Hrest IH]; intros out0; [constructor|].
+  eapply ngood_bind; [apply IH|]. intros vs o1 _ Hvs.
+  eapply ngood_bind; [apply (IHe _ _ _ _ o1 He Ha)|]. intros v o2 _ Hv. constructor; assumption.
+Qed.
+
+Lemma nat_at_ok va vi out : has_ty va TArr -> has_ty vi TInt -> ngood (fun v => has_ty v TInt) (nat_at va vi out).
+Proof.
+  intros Ha Hi. destruct (arr_inv _ Ha) as [l ->]. destruct (int_inv _ Hi) as [k ->].
+  unfold nat_at. destruct (arr_get l k); exact I.
+Qed.
+
 Lemma nexpr_step fuel : nexpr_sound fuel -> nstmt_sound fuel -> nexpr_sound (S fuel).
 Proof.
   intros IHe IHs L en e t out He Ht. destruct e; cbn [nat_expr nat_stmt nat_for].
@@ -240,6 +276,30 @@ Proof.
     destruct (ty_eqb ta tb) eqn:Q; [|discriminate]. injection Ht as <-. apply ty_eqb_eq in Q. subst tb.
     eapply ngood_bind; [apply (IHe _ _ _ _ out He Ec)|]. intros vc o1 _ Hvc.
     destruct (bool_inv _ Hvc) as [[|] ->]; [apply (IHe _ _ _ _ o1 He Ea)|apply (IHe _ _ _ _ o1 He Eb)].
+  - (* array literal: either order of the elements *)
+    rewrite ty_expr_arr in Ht. destruct (elems_ok F G L es) eqn:Ea; [|discriminate]. injection Ht as <-.
+    apply elems_ok_spec in Ea.
+    match goal with |- ngood _ (nbind ?ra _) => assert (HA : ngood (fun vs => Forall (fun v => has_ty v TInt) vs) ra) end.
+    { apply ngood_order.
+      - apply (nelems_sound_lr fuel L en IHe He es Ea).
+      - apply (nelems_sound_rl fuel L en IHe He es Ea). }
+    eapply ngood_bind; [exact HA|]. intros vs o1 _ Hvs.
+    destruct (ints_of_ok _ Hvs) as [l ->]. exact I.
+  - (* at: either order of the two operands; out of range aborts, it is not stuck *)
+    simpl in Ht. destruct (ty_expr F G L e1) as [ta|] eqn:Ea; [|discriminate].
+    destruct ta; try discriminate.
+    destruct (ty_expr F G L e2) as [ti|] eqn:Ei; [|discriminate].
+    destruct ti; try discriminate. injection Ht as <-.
+    apply ngood_order.
+    + eapply ngood_bind; [apply (IHe _ _ _ _ out He Ea)|]. intros va o1 _ Hva.
+      eapply ngood_bind; [apply (IHe _ _ _ _ o1 He Ei)|]. intros vi o2 _ Hvi. apply nat_at_ok; assumption.
+    + eapply ngood_bind; [apply (IHe _ _ _ _ out He Ei)|]. intros vi o1 _ Hvi.
+      eapply ngood_bind; [apply (IHe _ _ _ _ o1 He Ea)|]. intros va o2 _ Hva. apply nat_at_ok; assumption.
+  - (* array_length *)
+    simpl in Ht. destruct (ty_expr F G L e) as [ta|] eqn:Ea; [|discriminate].
+    destruct ta; try discriminate. injection Ht as <-.
+    eapply ngood_bind; [apply (IHe _ _ _ _ out He Ea)|]. intros va o1 _ Hva.
+    destruct (arr_inv _ Hva) as [l ->]. exact I.
 Qed.
 
 (* re-base the suffix part of a statement's post-condition on an outer scope *)
